@@ -1503,6 +1503,130 @@ def find_form_conjunction(A, body, I0, fr0, w):
     return dict(passing=passing, loops=1, flags=1, bad_flags=[], gate_ok=not ws3, site=A.site(w), fn=body.name)
 
 
+def helper_form_conjunction(A, offer_fn, is_target_write):
+    """the guard of the target write is a helper `h(.., job) -> answer` with one loop over the Outgoing neighbours of its job
+    (early returns and/or accumulators), and the write happens only for some of the helper's answers.  Computed:
+      offer answers: the answers of h for which the write is reachable (h forced to each answer in turn);
+      passing(d):    from the initial accumulators one iteration over a neighbour in state d continues the loop, and an offer
+                     answer is possible right after it;
+      gate:          a neighbour in a non-passing state b never lets an offer answer through: not from inside its iteration,
+                     and not after it - followed by the end of the loop or by one more iteration over any state (accumulators
+                     must stay lowered)."""
+    from interp import Interp, Config
+    from domain import av_set
+    from protocol import forced_analysis
+    body = A.facts.body(offer_fn)
+    g = call_graph(A)
+    cands = []
+    for n in sorted(g.get(offer_fn, ())):
+        hb = A.facts.bodies.get(n)
+        if hb is None or hb.kind not in ("Fn", "AssocFn") or n == offer_fn:
+            continue
+        rt = hb.locals[0]
+        fty = rt.get("adt") if rt.get("adt") in A.uni.fin else ("bool" if rt["s"] == "bool" else None)
+        if fty is None:
+            continue
+        I = Interp(A.facts, A.uni, A.layout, Config(label="HF0"))
+        fr, o_, col = I.analyze(hb)
+        nb = [v for k, v in I.rec.facts.items() if k[0] == "neighbors" and v["fid"] == fr.fid and v["dir"] == "Outgoing" and is_role(v["key"], "param")]
+        heads = [h for h in set(h for (_, h) in hb.back_edges())
+                 if hb.term(h)["k"] == "call" and (M.callee_name(hb.term(h)) or "").endswith("::next")]
+        if len(nb) == 1 and len(heads) == 1:
+            cands.append((hb, fty, I, fr, col, heads[0]))
+    if len(cands) != 1:
+        return None
+    hb, fty, I, fr, col, h = cands[0]
+    vals = sorted(A.uni.fin[fty]) if fty in A.uni.fin else [(0,), (1,)]
+    # which answers lead to the write?
+    offer_vals = set()
+    site = None
+    for v in vals:
+        av = fin(fty, [v]) if fty in A.uni.fin else ("fin", BOOL, frozenset([v]), ())
+        I3, fr3, out3, col3 = forced_analysis(A, body, {hb.name: (lambda I_, st_, f_, bi_, t_, a_, sp_, _av=av: [(_av, st_)])})
+        ws = [x for k, x in I3.rec.facts.items() if k[0] == "write_state" and is_target_write(x)]
+        if ws:
+            offer_vals.add(v)
+            site = site or A.site(ws[0])
+    if not offer_vals or len(offer_vals) == len(vals):
+        return None
+    ins = col["ins"]
+    loop = hb.natural_loop(h)
+    sw = hb.term(h)["t"]
+    somes = [s_ for s_ in hb.succs(sw) if s_ in loop]
+    nones = [s_ for s_ in hb.succs(sw) if s_ not in loop and hb.term(s_)["k"] != "unreachable"]
+    if len(nones) != 1:
+        return None
+    sym = ("b", fr.fid, h, "nbr")
+    col0 = {}
+    I.run(fr, ins[0].copy(), start=0, stops={h}, collect=col0)
+    first = col0["stops"].get(h)
+    if first is None:
+        return None
+
+    def answers(st):
+        ex = I.run(fr, st.copy(), start=nones[0], stops=())
+        if ex is None:
+            return set()
+        rv = ex.locals.get((fr.fid, 0))
+        return set(rv[2]) if (rv is not None and rv[0] == "fin") else set(vals)
+
+    def iteration(head_state, d):
+        """-> (early answers, head state after the iteration or None)"""
+        early, nxt = set(), None
+        for s0 in somes:
+            if s0 not in ins:
+                continue
+            st2 = ins[s0].copy()
+            for k_, v_ in head_state.locals.items():
+                st2.locals[k_] = v_
+            cell = st2.heap.get(("job", sym))
+            if cell is None or cell[0] != "adt":
+                return set(vals), None
+            st2.heap[("job", sym)] = av_set(cell, (("f", A.L.state_field),), fin(A.L.jobstate, [d]), A.uni)
+            col2 = {}
+            ex = I.run(fr, st2, start=s0, stops={h}, collect=col2)
+            if ex is not None:
+                rv = ex.locals.get((fr.fid, 0))
+                early |= set(rv[2]) if (rv is not None and rv[0] == "fin") else set(vals)
+            for b_, s2 in col2["stops"].items():
+                from interp import join_state
+                nxt = join_state(nxt, s2)
+        return early, nxt
+    passing, gate_ok = set(), True
+    after_first = {}
+    for d in A.JS:
+        early, nxt = iteration(first, d)
+        after_first[d] = (early, nxt)
+        if nxt is not None and (answers(nxt) & offer_vals):
+            passing.add(d)
+    for b_ in A.JS:
+        if b_ in passing:
+            continue
+        early, nxt = after_first[b_]
+        if early & offer_vals:
+            gate_ok = False
+        if nxt is None:
+            continue
+        if answers(nxt) & offer_vals:
+            gate_ok = False
+        for d in A.JS:
+            e2, n2 = iteration(nxt, d)
+            if (e2 & offer_vals) or (n2 is not None and (answers(n2) & offer_vals)):
+                gate_ok = False
+    # ... and a blocking neighbour after passing ones
+    for p_ in sorted(passing)[:6]:
+        _e, np_ = after_first[p_]
+        if np_ is None:
+            continue
+        for b_ in A.JS:
+            if b_ in passing:
+                continue
+            e2, n2 = iteration(np_, b_)
+            if (e2 & offer_vals) or (n2 is not None and (answers(n2) & offer_vals)):
+                gate_ok = False
+    return dict(passing=passing, loops=1, flags=1, bad_flags=[], gate_ok=gate_ok, site=site or hb.span["s"], fn=hb.name)
+
+
 def rule_offer_guard(A, R, rule, need_success=True):
     """the cleanup offer is guarded by the states of *all* direct downstreams: each passes only if it finished without failure"""
     C = A.classes()
@@ -1522,6 +1646,9 @@ def rule_offer_guard(A, R, rule, need_success=True):
     if offer_fn is None:
         raise Imprecision("anchor missing: no write into the cleanup offer in the done handler")
     res = loop_conjunction(A, offer_fn, lambda w: bool(set(w["to"]) & CO))
+    if res is None:
+        # the scan may have been extracted into a helper that answers wait / offer / skip
+        res = helper_form_conjunction(A, offer_fn, lambda w: bool(set(w["to"]) & CO))
     R.info["offer_function"] = short(offer_fn)
     R.ob(rule, "%s | offer write found with a downstream loop in front of it" % short(offer_fn), res is not None and res["loops"] >= 1,
          detail="cannot find the loop over the direct downstreams that guards the offer")
